@@ -32,6 +32,7 @@ func init() {
 	more["(*regexp.Regexp).Match"] = libReMatch
 	more["regexp.MustCompile"] = libMustCompile
 	more["strings.SplitN"] = libSplitN
+	more["strings.Split"] = libSplit
 	more["strings.Contains"] = libContains
 	for k, v := range more {
 		libModels[k] = v
@@ -407,5 +408,14 @@ func libSplitN(g *FuncGen, c *ast.CallExpr, callee *types.Func, st *State) []Val
 	default:
 		g.assume(st, fmt.Sprintf("(>= (slen %s) 1)", r.T))
 	}
+	return []Val{r}
+}
+
+func libSplit(g *FuncGen, c *ast.CallExpr, callee *types.Func, st *State) []Val {
+	s := g.ev(c.Args[0], st)
+	sep := g.ev(c.Args[1], st)
+	ty := callee.Type().(*types.Signature).Results().At(0).Type()
+	r := g.freshVal(st, "split", ty)
+	g.assume(st, fmt.Sprintf("(= %s (splitAll %s %s))", r.T, s.T, sep.T))
 	return []Val{r}
 }
